@@ -1,7 +1,8 @@
 """C11 — the real MwApi._do_request / _handle_query_continue / merge_data of the snapshot against SCRIPTED servers
 (the ones of coq/C11/ModelContinue.v: `srv_of script`), for the tie with the Coq model of query continuation.
 
-stdin : JSON lines {"id", "script": [[q, [[{key: [values]}, cont-or-null], ...]], ...], "order": [q, ...]}
+stdin : JSON lines {"id", "merge": [dst, src]}  (merge_data alone on nested values; answer {"id", "merged": value | null})
+     or JSON lines {"id", "script": [[q, [[{key: [values]}, cont-or-null], ...]], ...], "order": [q, ...]}
 stdout: JSON lines {"id", "answers": [[[key, [values]], ...] | null, ...], "qccount": n, "requests": n}
 One MwApi object per line: it makes the queries of "order" one after the other (a fetch: many queries, one client).
 Only the HTTP exchange (_send_http_request) is replaced."""
@@ -59,6 +60,16 @@ def run(case):
     return {"id": case["id"], "answers": answers, "qccount": api.qccount, "requests": api.nreq}
 
 
+def run_merge(case):
+    """{"merge": [dst, src]}: the real sapi.merge_data on nested values (atoms = strings, lists of ints, dicts)"""
+    dst, src = json.loads(json.dumps(case["merge"]))
+    try:
+        sapi.merge_data(dst, src)
+    except ValueError:
+        return {"id": case["id"], "merged": None, "valueerror": True}
+    return {"id": case["id"], "merged": dst}
+
+
 def main():
     for line in sys.stdin:
         line = line.strip()
@@ -66,7 +77,7 @@ def main():
             continue
         case = json.loads(line)
         try:
-            r = run(case)
+            r = run_merge(case) if "merge" in case else run(case)
         except Exception as e:
             r = {"id": case.get("id"), "error": "%s: %s\n%s" % (type(e).__name__, e, traceback.format_exc()[-1200:])}
         sys.stdout.write(json.dumps(r) + "\n")
